@@ -384,7 +384,13 @@ func (x *Exec) enterLoop(fr *frame, li *loopInfo, s *State) *State {
 		}
 	}
 	n.IterFrontier = n.Frontier
-	defer func() { n.HeadSt = n.Clone() }()
+	defer func() {
+		n.HeadSt = n.Clone()
+		if fr.headSt == nil {
+			fr.headSt = map[*ssa.BasicBlock]*State{}
+		}
+		fr.headSt[li.header] = n.HeadSt
+	}()
 	for _, a := range autoInv {
 		x.C.Assume(Implies(n.Reach, riInv(n, a)))
 	}
@@ -419,6 +425,9 @@ func (x *Exec) backEdge(fr *frame, li *loopInfo, s *State, cond Term) {
 	}
 	st := s.Clone()
 	st.Reach = cond
+	if h := fr.headSt[li.header]; h != nil {
+		st.HeadSt = h // loophead() in this loop's clauses means this loop's head, not an inner loop's
+	}
 	env := x.invEnv(fr, st)
 	x.oblCount[fmt.Sprintf("%s#be%d", fr.fn, li.ordinal)]++
 	be := x.oblCount[fmt.Sprintf("%s#be%d", fr.fn, li.ordinal)]
